@@ -69,6 +69,16 @@ def explore(res, tier, seed, model_ok=True):
                     res.count('empty_fragment')
                 if any(it.between):
                     res.count('control_between_fragments')
+    # texts whose exact content is easily lost on the way (a codec that eats a leading U+FEFF, NUL, noncharacters, format directives)
+    for t in ('\ufeff', '\ufeffhello', 'a\ufeffb', '\ufeff\ufeff', '\x00', 'a\x00b', '\uffff\ufffe', '{}', '{0} %s %d {x}', '\u2028\x85'):
+        payload = t.encode('utf-8')
+        for frags in ([payload], [payload[:1], payload[1:]], [payload[:3], b'', payload[3:]]):
+            it = gen_core.Item('text', payload, frags, [[] for _ in frags[:-1]])
+            sc = Scenario([], prate=0)
+            data = sc.good_reply() + b''.join(gen_core.serialise_item(rng, it)) + gen_core.server_frame(2, payload)
+            sc.env = reads([data]) + [('wait', 1, ('eof',))]
+            scs.append(sc); exps.append(it.expected() + gen_core.Item('binary', payload, [payload], []).expected()); nts.append(True)
+            res.count('special_text')
     pairs = coreutil.run_pairs(scs, model_ok)
     for (js, line, real, model), exp, nt in zip(pairs, exps, nts):
         if isinstance(real, dict):
